@@ -228,7 +228,9 @@ def _pair_params(repo, cls_name: str):
     """(exit param, modified param, dp param) of cls._update_function from the reconstruct() call site."""
     rec = repo.method(MOD, cls_name, "reconstruct")
     upd = repo.method(MOD, cls_name, "_update_function")
-    calls = {n: [c for c in walk_no_nested(rec.node) if isinstance(c, ast.Call) and call_name(c) == n]
+    alias = _step_aliases(repo, cls_name, rec)
+    calls = {n: [c for c in walk_no_nested(rec.node) if isinstance(c, ast.Call)
+                 and alias.get(call_name(c), call_name(c)) == n]
              for n in ("_overlap_projection", "_fourier_projection", "_update_function")}
     if any(len(v) != 1 for v in calls.values()):
         raise AnalysisError(f"{rec.qualname}: expected exactly one call each of the three operator steps")
@@ -243,6 +245,40 @@ def _pair_params(repo, cls_name: str):
         raise AnalysisError(f"{rec.qualname}: the update is not called with the exit wave and the modified exit wave")
     params = upd.positional_params
     return rec, upd, params[names.index(exit_)], params[names.index(modified)], (calls, fstmt, modified, exit_)
+
+
+ROLES = ("_overlap_projection", "_fourier_projection", "_update_function")
+
+
+def _step_aliases(repo, cls_name: str, rec) -> dict:
+    """local name -> operator step, for `a, b, c, d = update_step` in reconstruct().
+
+    The queue holds tuples `(self._overlap_projection, self._fourier_projection, self._update_function, ...)` built in
+    the class's other methods; position i of the unpacking is the step whose bound methods sit at position i of every
+    such tuple literal (warm-up / alternative variants carry the step's name as a suffix)."""
+    cls = repo.cls(MOD, cls_name)
+    by_pos: dict[int, set] = {}
+    for klass in cls.mro():
+        for m in (f for fs in klass.methods.values() for f in fs):
+            for t in ast.walk(m.node):
+                if isinstance(t, ast.Tuple) and isinstance(t.ctx, ast.Load) and len(t.elts) >= 3:
+                    roles = []
+                    for e in t.elts:
+                        d = dotted(e) or ""
+                        r = next((r for r in ROLES if d.startswith("self.") and d.endswith(r[1:])), None)
+                        roles.append(r)
+                    if sum(r is not None for r in roles) >= 3:
+                        for i, r in enumerate(roles):
+                            if r:
+                                by_pos.setdefault(i, set()).add(r)
+    out = {}
+    for st in walk_no_nested(rec.node):
+        if isinstance(st, ast.Assign) and isinstance(st.targets[0], ast.Tuple) and isinstance(st.value, ast.Name) \
+                and len(st.targets[0].elts) >= 3 and all(isinstance(e, ast.Name) for e in st.targets[0].elts):
+            for i, e in enumerate(st.targets[0].elts):
+                if len(by_pos.get(i, ())) == 1:
+                    out[e.id] = next(iter(by_pos[i]))
+    return out
 
 
 def _stmt_of(func: ast.FunctionDef, target: ast.AST) -> ast.stmt:
